@@ -217,6 +217,7 @@ def run(ctx):
     ne = exact_replay(ctx, insts, thorough)
     nt = table(ctx, thorough)
     npb = probe(ctx)
+    ctx.replayed = ne
     ctx.notes.update(exact_instances=len(insts), exact_cases=ne, table_cases=nt, probe_cases=npb)
     ctx.assumptions += [
         "exact part: scalar quadratic with an integer root; the forward solve starts 0.2 away from that root; runs that end at the other root are skipped (forward behaviour is C03's)",
